@@ -43,7 +43,10 @@ func main() {
 	c := core.New("C01", "fault_enumeration")
 	c.SetRule("one case = (history, crash image): an image of the store directory taken after a file-system operation " +
 		"(mkdir, create, write that reached the file, sync, close, rename, remove, toml dump) of a generated history " +
-		"create-family/flush/flush-empty/compact/reopen/concurrent-flush; every image is recovered with the real " +
+		"create-family/flush/flush-empty/compact/reopen/concurrent-flush/commit-convoy (2-4 flushers of ONE family built one " +
+		"after the other and committed concurrently, optionally with a compaction of that family committing in the same " +
+		"window, free-running or with the first committer held in its manifest write until the others queue behind it; " +
+		"then the family's obsolete-file cleanup; the running store is read after the commits returned); every image is recovered with the real " +
 		"kv.CreateStore and compared with the ledger. Non-trivial = image strictly inside an operation (taken after " +
 		"the operation's first and before its last file-system event); distinct by (history, image content hash).")
 	c.Assume("a killed process loses user-space buffers and keeps what the kernel has: the directory as read(2) shows it between two operations is a crash state")
@@ -135,6 +138,20 @@ func main() {
 		for _, v := range r.Violations {
 			c.Violation(v.Class, fmt.Sprintf("history %d (%s): %s", r.History, r.Shape, v.Message), v.Witness)
 		}
+	}
+	// the overlapping-commit situation must have been observed: convoys whose schedule was reached, crash images with two
+	// or more commits of one family in flight, and the running store read after the commits returned
+	if n := c.Counter("convoy.groups"); n < int64(c.Pick(16, 100)) {
+		c.Inconclusive("only %d commit convoys (overlapping commits of one family) reached their schedule", n)
+	}
+	if n := c.Counter("convoy.groups_gated"); n < int64(c.Pick(4, 25)) {
+		c.Inconclusive("only %d gated commit convoys (first committer held in its manifest write until the others queued)", n)
+	}
+	if n := c.Counter("family_states_with_2plus_commits_in_flight"); n < int64(c.Pick(20, 100)) {
+		c.Inconclusive("only %d recovered family states with two or more commits of the family in flight", n)
+	}
+	if n := c.Counter("live.running-store-after-concurrent-commits.family_states_compared"); n < int64(c.Pick(16, 100)) && c.Violations() == 0 {
+		c.Inconclusive("the running store was compared with the ledger after only %d commit convoys", n)
 	}
 	if c.Counter("images_strictly_inside_an_operation") < 20 {
 		c.Inconclusive("only %d images strictly inside an operation", c.Counter("images_strictly_inside_an_operation"))
